@@ -204,8 +204,11 @@ fn fence_acqrel(execution: &mut Execution) {
 }
 
 fn fence_seqcst(execution: &mut Execution) {
-    fence_acqrel(execution);
+    fence_acq(execution);
     execution.threads.seq_cst_fence();
+    // The release view is taken last: stores after the fence also publish
+    // what the fence obtained from the SeqCst fences preceding it.
+    fence_rel(execution);
 }
 
 impl<T: Numeric> Atomic<T> {
